@@ -119,7 +119,9 @@ def pcell(kind, v):
     """Canonical cell of a plan value: None for missing, else a comparable Python value."""
     if plan_isna(kind, v):
         return None
-    if kind in ("f", "f32"):
+    if kind == "f32":
+        return float(np.float32(v))               # the plan value as float32 holds it
+    if kind == "f":
         return float(v)
     if kind in ("i", "i32", "i8", "u8", "oi"):
         return int(v)
